@@ -59,9 +59,10 @@ structure St where
   stype : SType        -- state_type
   attempt : Nat        -- check_attempt
   lastHard : SState    -- last_hard_state_raw
-  hist : Nat           -- last_hard_states_raw: current * 100 + previous, 99 = "never" (checkable.ti:113-115)
-  lastState : SState   -- last_state_raw (state of the result before the latest one)
   lastExec : Option Int  -- execution_start of last_check_result, if any
+  -- fields added later carry their checkable.ti default so that other models' literals stay valid
+  hist : Nat := 9999   -- last_hard_states_raw: current * 100 + previous, 99 = "never" (checkable.ti:113-115)
+  lastState : SState := .unknown  -- last_state_raw (state of the result before the latest one)
   deriving Repr, DecidableEq
 
 /-- A never-checked checkable (lib/icinga/checkable.ti:98-118 defaults). -/
